@@ -433,6 +433,19 @@ def p5(run):
         for bid, t in prog.calls(q):
             n = Program.callee_name(t)
             if re.search(r"Vec::<T, A>::len$|<impl \[T\]>::len$|Vec::<T, A>::capacity$", n):
+                # `v.resize(v.len() + k, c)` only appends k copies: the length is read to say "k more", nothing else
+                qex_ = Expr(prog, q)
+                appended = False
+                for _, t2 in prog.calls(q):
+                    if re.search(r"Vec::<T, A>::resize$", Program.callee_name(t2)) and len(t2["args"]) == 3:
+                        nl = strip(qex_.operand(t2["args"][1]))
+                        if nl[0] == "bin" and nl[1].replace("WithOverflow", "").replace("Unchecked", "") == "Add" and \
+                                any(strip(x)[0] == "call" and len(strip(x)) > 3 and strip(x)[3] == bid for x in (nl[2], nl[3])):
+                            appended = True
+                sl_ = prog.slicer(q)
+                uses = sl_.forward_uses(t["dst"]["l"]) if t.get("dst") else []
+                if appended and len(uses) <= 2:
+                    continue
                 bad += 1
                 run.bad("C06.P5", "column-depends-on-position/%s" % short(q), where(t),
                         "%s reads the length of the row built so far (%s): the columns given to the following characters depend on the absolute column, so a drawing moved by k columns is not just shifted by k" % (short(q), short(n)))
